@@ -14,6 +14,7 @@ TRUSTED = G.TRUSTED + [
     "side-effect freedom: the model's schedule is a function of its arguments; on the implementation every getter of the "
     "pools, workers, resources and tasks is compared before/after the call (same process, by name)",
 ]
+EXPLANATION = ("Greedy part of C10: theorems in Props/C10_greedy.v (contract, replay = final virtual cluster, feasibility invariant, first fit, copy mode, F10 refutation); the Coq monitor contract_check (proved equivalent to the Contract Prop) runs on the implementation's decisions with the documented copy mode; side effects are looked for by comparing every getter before/after; F10-signature inputs live in a stream of their own (model still predicts the duplicated decisions exactly).")
 PROPS_FILE = "C10_greedy"
 F10_WHAT = ("preemptive EDF/LSF with >= 2 task graphs: each graph's get_schedulable_tasks appends all resident tasks, so a "
             "running task is offered and decided once per graph (workload/tasks.py:1188-1191, workload/workload.py:296-309)")
